@@ -395,6 +395,31 @@ def rule_dop(ctx, fi, it, rule):
     return b2, dop_stmt
 
 
+def rule_returned_field(ctx, fi, itn, rule):
+    from ..absint import ObjV
+    # C08.7 the returned field IS the propagated field: a store of it into a buffer that has the input's dtype (output = input.copy();
+    # output.signal[:] = A) casts the complex result - for a field given as real samples the imaginary part is dropped
+    sites = find_sites(fi, itn)
+    outs = [o for o in itn.outcomes if o.kind == "return" and isinstance(o.value, ObjV)]
+    if sites and len(outs) == 1 and isinstance(getattr(itn, "final_env", None), dict):
+        fvar = sites[-1][1]
+        final = itn.final_env.get(fvar)
+        got = outs[0].value.fields.get("signal")
+        ga = got.single_atom() if isinstance(got, Form) else None
+        if ga is not None and ga[0] == "fn" and ga[1] == "setitem":
+            ctx.violation(rule, fi, outs[0].node, f"FIBER: output.signal = {got!r}"[:200],
+                          "the propagated field is stored element-wise into an existing buffer (a copy of the input): numpy casts it to that buffer's dtype, so for an input built from real or "
+                          "integer samples the imaginary part of the result is dropped (energy law, SPM closed form and convergence all fail for such inputs)")
+        elif isinstance(final, Form) and isinstance(got, Form):
+            from ..forms import vkey
+            ctx.check(rule, vkey(got) == vkey(final), fi, outs[0].node, "FIBER: output.signal is the propagated field", f"the final value of `{fvar}`",
+                      f"the returned signal {got!r} is not the field the stepping loop ends with ({final!r})"[:500])
+        else:
+            ctx.unknown(rule, fi, fi.node, "FIBER: output field", "returned signal or final field not determined")
+    else:
+        ctx.unknown(rule, fi, fi.node, "FIBER: output field", "no propagation site / single return")
+
+
 def _at_most_length(v, length, depth=0):
     """the value cannot exceed the fibre length: the length itself, min(.., length), or alternatives that all are"""
     if not isinstance(v, Form) or depth > 5:
@@ -450,27 +475,7 @@ def run(ctx):
     rule_rank_guard(ctx, fi)
     rule_shortcut(ctx, fi, it)
     rule_dop(ctx, fi, it, "C08.6")       # the scheme converges to the NLSE only with the NLSE's own linear operator
-    # C08.7 the returned field IS the propagated field: a store of it into a buffer that has the input's dtype (output = input.copy();
-    # output.signal[:] = A) casts the complex result - for a field given as real samples the imaginary part is dropped
-    sites = find_sites(fi, itn)
-    outs = [o for o in itn.outcomes if o.kind == "return" and isinstance(o.value, ObjV)]
-    if sites and len(outs) == 1 and isinstance(getattr(itn, "final_env", None), dict):
-        fvar = sites[-1][1]
-        final = itn.final_env.get(fvar)
-        got = outs[0].value.fields.get("signal")
-        ga = got.single_atom() if isinstance(got, Form) else None
-        if ga is not None and ga[0] == "fn" and ga[1] == "setitem":
-            ctx.violation("C08.7", fi, outs[0].node, f"FIBER: output.signal = {got!r}"[:200],
-                          "the propagated field is stored element-wise into an existing buffer (a copy of the input): numpy casts it to that buffer's dtype, so for an input built from real or "
-                          "integer samples the imaginary part of the result is dropped (energy law, SPM closed form and convergence all fail for such inputs)")
-        elif isinstance(final, Form) and isinstance(got, Form):
-            from ..forms import vkey
-            ctx.check("C08.7", vkey(got) == vkey(final), fi, outs[0].node, "FIBER: output.signal is the propagated field", f"the final value of `{fvar}`",
-                      f"the returned signal {got!r} is not the field the stepping loop ends with ({final!r})"[:500])
-        else:
-            ctx.unknown("C08.7", fi, fi.node, "FIBER: output field", "returned signal or final field not determined")
-    else:
-        ctx.unknown("C08.7", fi, fi.node, "FIBER: output field", "no propagation site / single return")
+    rule_returned_field(ctx, fi, itn, "C08.7")
     rule_first_step(ctx, fi, itn)
     check_late_binding(ctx, "C08.5", ["devices.FIBER"])
     ctx.require_min("C08.8", 1)
